@@ -39,7 +39,7 @@ for _c, _names in {
     "transform": ["sum_t", "mean_t", "max_t", "first_t", "count_t", "size_t"],
     "rowwise": ["cumsum", "cummin", "cummax", "cumcount", "shift", "diff", "ema", "rolling_sum", "rolling_mean", "rolling_min", "rolling_max", "nearby"],
     "layout": ["rolling_sum_g", "rolling_max_g", "ema_g", "cumsum_g"],
-    "select": ["head", "tail", "nth", "head_i", "nth_i"],
+    "select": ["head", "tail", "nth", "head_i", "nth_i", "head_all", "tail_all", "head_all_i"],
     "apply": ["apply", "median", "quantile", "agg"],
     "groups": ["groups"], "keycount": ["key_count"], "counts": ["count_ikey", "count_ikey_m"],
     "margins": ["sum_margins", "mean_margins"], "timed": ["ema_t"], "factorize": ["factorize_1d", "factorize_2d"],
@@ -294,7 +294,9 @@ class World:
             r2 = random.Random(case["seed"] + 1)
             sel = [r2.random() < 0.7 for _ in range(n)]
             mask = {"none": None, "bool": np.array(sel, dtype=bool), "series": pd.Series(np.array(sel, dtype=bool)),
-                    "pos": np.array([i for i in range(n) if sel[i]], dtype=np.int64), "slice": slice(1, None)}[mk_]
+                    "pos": np.array([i for i in range(n) if sel[i]], dtype=np.int64),
+                    "posneg": np.array([(i if i % 2 else i - n) for i in range(n) if sel[i]], dtype=np.int64),     # positions counted from the end
+                    "slice": slice(1, None)}[mk_]
             times = np.array([np.datetime64("2021-01-01", "ns") + np.timedelta64(i, "h") for i in range(n)])
             v2 = np.array([float(r2.choice([1, 2, 4])) for _ in range(n)])
             return {"keys": keys, "values": vals, "mask": mask, "times": times, "values2": v2}
@@ -356,6 +358,12 @@ class World:
             return getattr(gb, name)(v, 1)
         if name == "nth":
             return gb.nth(v, 0)
+        if name == "head_all":
+            return gb.head(v, self.n + 1)
+        if name == "tail_all":
+            return gb.tail(v, self.n + 1)
+        if name == "head_all_i":
+            return gb.head(v, self.n + 1, keep_input_index=True)
         if name == "head_i":
             return gb.head(v, 2, keep_input_index=True)
         if name == "nth_i":
